@@ -184,7 +184,7 @@ def floatResult (F : FloatOps) (o : AOp) (fx fy : UInt64) : Except Err SVal :=
 
 theorem roundRat_one_ne_zeroDen (i : Int) : FloatRound.roundRat i 1 ≠ .zeroDen := by
   intro h
-  rw [FloatRound.roundRat, if_neg Nat.one_ne_zero] at h
+  rw [FloatRound.roundRat, if_neg Nat.one_ne_zero, FloatRound.finish] at h
   split at h <;> cases h
 
 theorem toFloat_err {i : Int} {e : Err} (h : toFloat i = .error e) : e = .overflow := by
